@@ -780,7 +780,9 @@ func mapChain(w *World, f *ssa.Function, v ssa.Value, depth int) (ssa.Value, Sta
 				continue
 			}
 			if !okIdx || stores != 1 {
-				return v, Violated, fmt.Sprintf("the pre-sized result is not filled by exactly one indexed store per iteration at the loop index (stores: %d)", stores), 0
+				// alternative store sites (one per branch), or an index that equals the loop
+				// index without being it: not followed
+				return v, Undecided, fmt.Sprintf("the pre-sized result is not filled by exactly one indexed store per iteration at the loop index (stores: %d)", stores), 0
 			}
 			if reachableFrom(loop.Body, map[*ssa.BasicBlock]bool{stBlk: true, loop.Done: true})[loop.Header] {
 				return v, Violated, "some iteration returns to the loop header without storing its output (an input element is skipped)", 0
@@ -796,12 +798,16 @@ func mapChain(w *World, f *ssa.Function, v ssa.Value, depth int) (ssa.Value, Sta
 	}
 	for _, b := range ai.Bases {
 		if !isEmptySliceBase(b) {
-			return v, Violated, "returned list is not built from an empty list by appends only (" + describeValue(v) + ")", 0
+			// appended to the result of an earlier stage (or a peeled first element): not followed
+			return v, Undecided, "returned list is not built from an empty list by appends only (" + describeValue(v) + ")", 0
 		}
 	}
 	for _, ap := range ai.Appends {
 		elems, spread := appendedElems(ap)
-		if spread != nil || len(elems) != 1 {
+		if spread != nil {
+			return v, Undecided, "an append spreads a list whose length is not known (" + shortInstr(ap) + ")", 0
+		}
+		if len(elems) != 1 {
 			return v, Violated, "an append does not add exactly one element", 0
 		}
 	}
@@ -823,7 +829,8 @@ func mapChain(w *World, f *ssa.Function, v ssa.Value, depth int) (ssa.Value, Sta
 			for _, sr := range findSliceRanges(f) {
 				for _, ap := range ai.Appends {
 					if sr.blocks()[ap.Block()] {
-						return v, Violated, fmt.Sprintf("the list is built by %d append sites, some of them outside the loop over the input (not one output per input)", len(ai.Appends)), 0
+						// a peeled first/last element is appended outside the loop: not followed
+						return v, Undecided, fmt.Sprintf("the list is built by %d append sites, some of them outside the loop over the input", len(ai.Appends)), 0
 					}
 				}
 			}
@@ -834,14 +841,22 @@ func mapChain(w *World, f *ssa.Function, v ssa.Value, depth int) (ssa.Value, Sta
 	stop := map[*ssa.BasicBlock]bool{loop.Done: true}
 	for _, ap := range ai.Appends {
 		stop[ap.Block()] = true
+		// a nested loop that goes on after the append produces several outputs for one input;
+		// a search loop that appends once and leaves (break) does not
 		for _, sr := range findSliceRanges(f) {
 			if sr != loop && blocks[sr.Header] && sr.blocks()[ap.Block()] {
-				return v, Violated, "the append is inside a nested loop (more than one output per input)", 0
+				if appendLoopsOn(ap, sr.Header, sr.blocks()) {
+					return v, Violated, "the append is inside a nested loop that continues after it (more than one output per input)", 0
+				}
+				return v, Undecided, "the append is inside a nested loop that is left after it", 0
 			}
 		}
 		for _, mr := range findMapRanges(f) {
 			if blocks[mr.Header] && mr.blocks()[ap.Block()] {
-				return v, Violated, "the append is inside a nested loop (more than one output per input)", 0
+				if appendLoopsOn(ap, mr.Header, mr.blocks()) {
+					return v, Violated, "the append is inside a nested loop that continues after it (more than one output per input)", 0
+				}
+				return v, Undecided, "the append is inside a nested loop that is left after it", 0
 			}
 		}
 	}
@@ -2344,6 +2359,34 @@ func sameListVar(ap *ssa.Call, lst ssa.Value) bool {
 			if resolve(b) == l {
 				return true
 			}
+		}
+	}
+	return false
+}
+
+// appendLoopsOn: from the block of the append the header of the nested loop is
+// reachable again without leaving that loop.
+func appendLoopsOn(ap *ssa.Call, header *ssa.BasicBlock, blocks map[*ssa.BasicBlock]bool) bool {
+	seen := map[*ssa.BasicBlock]bool{}
+	var walk func(b *ssa.BasicBlock) bool
+	walk = func(b *ssa.BasicBlock) bool {
+		if b == header {
+			return true
+		}
+		if seen[b] || !blocks[b] {
+			return false
+		}
+		seen[b] = true
+		for _, s := range b.Succs {
+			if walk(s) {
+				return true
+			}
+		}
+		return false
+	}
+	for _, s := range ap.Block().Succs {
+		if walk(s) {
+			return true
 		}
 	}
 	return false
